@@ -55,7 +55,15 @@ func runOne(ctx context.Context, sp solverSpec, file string, timeoutS int) (stat
 	secs = time.Since(start).Seconds()
 	out = buf.String()
 	first := strings.TrimSpace(strings.SplitN(out, "\n", 2)[0])
-	if strings.Contains(out, "(error") {
+	// a (get-model) after unsat/unknown/timeout makes every solver print a model-unavailable error: not an engine failure
+	var kept []string
+	for _, l := range strings.Split(out, "\n") {
+		if strings.Contains(l, "(error") && (strings.Contains(l, "model is not available") || strings.Contains(l, "annot get model")) {
+			continue
+		}
+		kept = append(kept, l)
+	}
+	if strings.Contains(strings.Join(kept, "\n"), "(error") {
 		// z3 4.8.12 prints an error for get-model after unsat: tolerate exactly that.
 		if first == "unsat" && strings.Count(out, "(error") == 1 && strings.Contains(out, "model is not available") {
 			return "unsat", out, secs
